@@ -1387,6 +1387,10 @@ def base_syrk(A, C, uplo="L", trans="N", alpha=None, beta=None, partial=None):
         raise RAISES(E_TYPE, "trans")
     if partial is not None and not isinstance(partial, bool):
         raise RAISES(E_TYPE, "partial must be a bool")
+    if tc == "z" and (A.sp or C.sp):
+        # the docstring admits 'z' (sp)matrices, but no complex sparse kernel exists and the
+        # repaired library rejects the call: not judged (a crash still is)
+        raise UNSPECIFIED("complex syrk with a sparse operand")
     X = A if trans == "N" else A.trans()
     n = X.m
     if (C.m, C.n) != (n, n):
@@ -1645,6 +1649,21 @@ def _make_probe():
     return f
 
 
+GRAVEYARD = []      # objects that took part in a failed operation: kept alive, never used again
+
+
+def materialize(r):
+    """a fresh cvxopt object with the state of the model object r"""
+    import cvxopt
+    if not r.sp:
+        return cvxopt.matrix(list(r.v), (r.m, r.n), r.tc)
+    pat = list(r.pat or [])
+    if len(set(pat)) != len(pat):
+        raise ValueError("pattern with repeated positions")
+    return cvxopt.spmatrix([r.v[i + j * r.m] for (i, j) in pat], [i for (i, j) in pat], [j for (i, j) in pat],
+                           (r.m, r.n), r.tc)
+
+
 _PROBE = _make_probe()
 _NOARGS = ()
 
@@ -1703,6 +1722,24 @@ class Lockstep(object):
                 self.ref[n] = cache[id(o)]
             else:
                 self.ref.pop(n, None)
+
+    def renew(self):
+        """Containment after an operation that raised: every live library object is replaced by a
+        fresh one built from the (just verified) model state, with the same identity structure;
+        the old objects are parked and never touched or freed again.  An operation that damages
+        an object while failing (e.g. frees its buffer) then cannot falsify later steps."""
+        fresh = {}
+        for n in self.live():
+            r = self.ref[n]
+            if n not in self.real:
+                continue
+            if id(r) not in fresh:
+                try:
+                    fresh[id(r)] = materialize(r)
+                except Exception:       # noqa: keep the old object
+                    fresh[id(r)] = self.real[n]
+            GRAVEYARD.append(self.real[n])
+            self.real[n] = fresh[id(r)]
 
     def compare_var(self, name, label, adopt=True):
         """real[name] against ref[name]; adopts real values that are within tolerance so that
@@ -1886,6 +1923,7 @@ class Lockstep(object):
             # nothing may have changed
             if not self.compare_all(label + ":after-exception"):
                 return "dead"
+            self.renew()
             return "raised"
         # the model has an answer
         c.check()
